@@ -266,6 +266,19 @@ def run_case(cls, fname, removal, history, n, t):
     out = {}
     both = ['succ', 'pred'] if cls == 'DynDiGraph' else ['adj']
     alive = lambda a: any(_expected(M, w_, a, t, nodes) for w_ in both)
+    if fname == 'get_node_snapshots':
+        try:
+            res = list(G.get_node_snapshots(n))
+        except Exception as ex:
+            return {'C02.get_node_snapshots.no_exception.%s' % type(ex).__name__: repr(ex)}
+        ids = G.temporal_snapshots_ids()
+        if not M.removal:
+            exp = [q for q in ids if n in nodes and any(M.present(*((n, b) if w_ != 'pred' else (b, n)), q) for w_ in both for b in nodes)]
+        else:
+            exp = [q for q in ids if n in nodes and any(_expected(M, w_, n, q, nodes) for w_ in both)]
+        if sorted(res) != sorted(exp):
+            return {'C02.get_node_snapshots.each_snapshot_with_the_node_once': 'get_node_snapshots(%r) = %r, expected %r' % (n, res, exp)}
+        return {}
     if fname in ('has_node', 'nodes', 'nodes_iter', 'number_of_nodes'):
         try:
             res = getattr(G, fname)(n, t) if fname == 'has_node' else getattr(G, fname)(t)
@@ -352,7 +365,7 @@ def _search_real(self, engine):
             G, M, outs = run_history(cls, rem, h, probing=False)
             if any(o[0] != o[1] for o in outs) or not M.keys():
                 continue
-            for t in [None] + list(qs_of(M)):
+            for t in ([None] + list(qs_of(M)) if self.fname != 'get_node_snapshots' else [None]):
                 if self.fname.endswith('degree_iter') or self.fname in ('nodes', 'nodes_iter', 'number_of_nodes'):
                     ns = (None,)
                 elif self.fname in ITER_OF:
@@ -582,3 +595,68 @@ class NumberOfNodes(_OverDegree):
             ctx.oblige('C02.number_of_nodes.counts_every_node_with_an_interaction_present',
                        z3.Implies(z3.And(inn[c.n], self.some_neighbour(ctx, c, c.n, c.qb)), member(c.n)), tags=T)
         self.unchanged(ctx, c, 'number_of_nodes')
+
+
+class GetNodeSnapshots(_OverDegree):
+    """get_node_snapshots(n)   ensures  the returned list holds exactly the snapshot ids t with has_node(n, t), each once
+    (modular against temporal_snapshots_ids and has_node; the ORDER of the list - ascending, as the ids are visited in ascending order -
+    is not part of the ghost state and stays with the bounded stand-in)"""
+
+    def __init__(self, cls, bound_n=None):
+        MAPS['get_node_snapshots'] = None
+        _NQ.__init__(self, cls, 'get_node_snapshots', bound_n)
+
+    def variants(self):
+        return [{'mode': m, 't': 'none'} for m in ('removal', 'accum')]
+
+    def uses(self, eng):
+        from .readside import TemporalSnapshotsIds
+        return [TemporalSnapshotsIds(self.cls), HasNode(self.cls)]
+
+    def reads(self):
+        from .readside import TemporalSnapshotsIds
+        return [TemporalSnapshotsIds(self.cls).key, HasNode(self.cls).key]
+
+    def setup(self, ctx, variant):
+        c = self.base(ctx, variant)
+        c.argv = [VGraph(c.g), VNode(c.n)]
+        c.HN = has_node_symbol(ctx, c.g)
+        c.q = fresh('q', Int)
+        ctx.gns = c
+        return c
+
+    def loop_specs(self):
+        def cnt_of(L):
+            vs = [v for v in L.env.values() if getattr(v, 'kind', None) == 'intbag']
+            return vs[0].cnt if vs else z3.K(Int, IntV(0))
+
+        def inv(L):
+            c = L.ctx.gns
+            it = L.iterable
+            if it.kind != 'seq' or 'idx' not in it.meta:
+                raise Undecided('loop does not run over the sorted snapshot ids')
+            idx = it.meta['idx']
+            q = z3.Int('q?gn')
+            cnt = cnt_of(L)
+            SK = c.pre['SKey']
+            return [('collected_ids_are_the_visited_ids_with_the_node',
+                     FA([q], cnt[q] == b2i(z3.And(SK[q], idx(q) < L.k, c.HN(c.n, q))), [cnt[q]]))]
+
+        def hints(L):
+            it = L.iterable
+            L.ctx.mention(it.meta['idx'](it.meta['f'](L.k)))
+            return []
+        return {'seq/1': LoopSpec(inv, modifies={}, assumes=hints, tags=T)}
+
+    def finish(self, ctx, c, outcome):
+        if outcome[0] == 'raise':
+            return self.forbid(ctx, 'C02.get_node_snapshots.no_exception.%s' % outcome[1], tags=T, note=outcome[2])
+        r = outcome[1]
+        if r.kind == 'list' and not r.items and not r.esc:
+            cnt = z3.K(Int, IntV(0))
+        elif r.kind == 'intbag':
+            cnt = r.cnt
+        else:
+            return self.forbid(ctx, 'C02.get_node_snapshots.returns_a_list_of_ids', tags=T, note='result kind %s' % r.kind)
+        ctx.oblige('C02.get_node_snapshots.each_snapshot_with_the_node_once', cnt[c.q] == b2i(z3.And(c.pre['SKey'][c.q], c.HN(c.n, c.q))), tags=T)
+        self.unchanged(ctx, c, 'get_node_snapshots')
